@@ -86,8 +86,9 @@ def check(prop, tier):
     known = load_known()
     known_ids = {(k["property"], k["unit"], k["obligation"]): k for k in known.get("known", [])}
     results = []
-    nproc = min(16, max(1, len(names) + 1))
-    with mp.Pool(nproc) as pool:
+    nproc = min(int(os.environ.get("TVC_POOL", "10")), max(1, len(names) + 1))
+    # one fresh worker per unit: a unit's verdicts do not depend on which units ran before it in the same process
+    with mp.Pool(nproc, maxtasksperchild=1) as pool:
         lem_async = pool.apply_async(_run_lemmas, (0,))
         results = pool.map(_run_unit, names, chunksize=1)
         lemmas = lem_async.get()
